@@ -69,7 +69,9 @@ class Ctx:
     """Per-worker context: a private scratch directory outside /repo and /verif."""
 
     def __init__(self):
-        self.dir = tempfile.mkdtemp(prefix="cvf_w_")
+        # (inside the scratch directory of the run when there is one: pool workers are terminated without running their
+        #  atexit handlers, so the parent removes the whole directory when the pool is done)
+        self.dir = tempfile.mkdtemp(prefix="cvf_w_", dir=os.environ.get("VERIF_WORKER_BASE") or None)
         self.k = 0
 
     def path(self, suffix=".cool"):
@@ -172,12 +174,18 @@ def run_cases(cases, nproc=NPROC, chunk=64):
                 yield drv, case, obs
         return
     ctx = mp.get_context("fork")
-    with ctx.Pool(nproc, initializer=_worker_init) as pool:
-        for res in pool.imap(_run_chunk, chunks):
-            for drv, case, obs, err in res:
-                if err:
-                    raise MachineryError(f"driver {drv} failed on {json.dumps(case)[:400]}:\n{err}")
-                yield drv, case, obs
+    base = tempfile.mkdtemp(prefix="cvf_run_")
+    os.environ["VERIF_WORKER_BASE"] = base
+    try:
+        with ctx.Pool(nproc, initializer=_worker_init) as pool:
+            for res in pool.imap(_run_chunk, chunks):
+                for drv, case, obs, err in res:
+                    if err:
+                        raise MachineryError(f"driver {drv} failed on {json.dumps(case)[:400]}:\n{err}")
+                    yield drv, case, obs
+    finally:
+        os.environ.pop("VERIF_WORKER_BASE", None)
+        shutil.rmtree(base, ignore_errors=True)
 
 
 # ----------------------------------------------------------------------------------------------
